@@ -9,6 +9,7 @@
 #define MAXEV 2
 #define MAXCALLS (NIN / 4 + 1)
 #include "env.h"
+static unsigned vf_token_code(const char *s) { (void)s; return 0; }
 #define LINE_OK(j) 1
 #include "ref_frame.h"
 
